@@ -5,6 +5,7 @@ package composite
 import (
 	"encoding/json"
 	"fmt"
+	"sort"
 	"strings"
 	"sync"
 	"testing"
@@ -125,6 +126,8 @@ type c13Case struct {
 	Body   string    `json:"body"`
 	// LabelCase marks responses whose children carry labels that must be rejected
 	LabelCase bool `json:"labelCase,omitempty"`
+	// Structural marks well-formed answers with an odd child list (no-write rule not applied)
+	Structural bool `json:"structural,omitempty"`
 }
 
 func c13Template(hook, uid string, gensel bool) map[string]interface{} {
@@ -181,6 +184,71 @@ func c13Cases(cfg c13Config, uid string) []c13Case {
 				}
 				out = append(out, c13Case{Cfg: cfg, Hook: hook, Desc: "body:" + name, Status: st, Body: b})
 			}
+		}
+	}
+	// structurally odd child lists: well-formed JSON that names children metacontroller cannot or
+	// should not manage as told (judged for panics and by the always-on ownership monitor; whether
+	// the rest of such an answer is carried out is not prescribed)
+	for _, hook := range []string{"sync", "finalize"} {
+		mk := func(mut func(kids []interface{}) []interface{}) string {
+			tmpl := c13Template(hook, uid, cfg.GenSel)
+			tmpl["children"] = mut(tmpl["children"].([]interface{}))
+			b, _ := json.Marshal(tmpl)
+			return string(b)
+		}
+		clone := func(k interface{}) map[string]interface{} { return sim.DeepCopy(k.(map[string]interface{})) }
+		variants := map[string]func(kids []interface{}) []interface{}{
+			"dup-child": func(kids []interface{}) []interface{} {
+				d := clone(kids[0])
+				sim.SetNested(d, "other", "spec", "value")
+				return append(kids, d)
+			},
+			"undeclared-kind": func(kids []interface{}) []interface{} {
+				return append(kids, map[string]interface{}{"apiVersion": "v1", "kind": "ConfigMap", "metadata": map[string]interface{}{"name": "cm-" + uid}, "data": map[string]interface{}{"a": "b"}})
+			},
+			"unknown-kind": func(kids []interface{}) []interface{} {
+				return append(kids, map[string]interface{}{"apiVersion": "nope.dev/v1", "kind": "Nope", "metadata": map[string]interface{}{"name": "x-" + uid}})
+			},
+			"other-namespace": func(kids []interface{}) []interface{} {
+				d := clone(kids[1])
+				sim.SetNested(d, "elsewhere-"+uid, "metadata", "namespace")
+				kids[1] = d
+				return kids
+			},
+			"no-name": func(kids []interface{}) []interface{} {
+				d := clone(kids[1])
+				delete(d["metadata"].(map[string]interface{}), "name")
+				kids[1] = d
+				return kids
+			},
+			"generate-name": func(kids []interface{}) []interface{} {
+				d := clone(kids[1])
+				delete(d["metadata"].(map[string]interface{}), "name")
+				sim.SetNested(d, "gen-", "metadata", "generateName")
+				kids[1] = d
+				return kids
+			},
+			"other-version": func(kids []interface{}) []interface{} {
+				d := clone(kids[1])
+				d["apiVersion"] = "kids.dev/v2"
+				kids[1] = d
+				return kids
+			},
+			"no-apiversion": func(kids []interface{}) []interface{} {
+				d := clone(kids[1])
+				delete(d, "apiVersion")
+				kids[1] = d
+				return kids
+			},
+			"empty-child": func(kids []interface{}) []interface{} { return append(kids, map[string]interface{}{}) },
+		}
+		var names []string
+		for n := range variants {
+			names = append(names, n)
+		}
+		sort.Strings(names)
+		for _, n := range names {
+			out = append(out, c13Case{Cfg: cfg, Hook: hook, Desc: "children:" + n, Status: 200, Body: mk(variants[n]), Structural: true})
 		}
 	}
 	// label validation cases (must be rejected before anything is written)
